@@ -76,6 +76,8 @@ OPERANDS = [
     "0", "1", "-1", "2", "-8", "3", "1/2", "-1/2", "1/3", "2/3", "0.5", "1.5", "-0.0", "1e400", "-1e400", "1e-400",
     "(10 ** 400)", "(2 ** 2000)", "(-(10 ** 400))", "400", "-400", "1e3", "true", "false", "'s'", '"\\u00e9"', "''",
     "{1}", "{1, 2/3}", "{true}", "{'a'}", "{1}.count", "{1, 2}.max", "_offset_", "_offset_.min", "nothing", "ns.Leaf.1.0",
+    "v", "max", "_extent_", "_bit_length_", '"\\U00110000"', '"\\U0010ffff"', '"\\Uffffffff"', "'\\ud800'", "ns.Leaf.1.0.v",
+    "ns.Leaf.1.0._extent_",
 ]
 UNOPS = ["+", "-", "!"]
 
@@ -390,7 +392,7 @@ def conditions(tier: str, seed: int) -> typing.List[Cond]:
                                 witness={"na": -3, "nb": 1}, budget=300.0, need_exhaust=True, key="key_c13"))
     # c13.kinds
     for op in BINOPS + ["."]:
-        subset = list(range(len(OPERANDS))) if thorough or op in ("**", "/", "%") else sorted(rnd.sample(range(len(OPERANDS)), 14))
+        subset = list(range(len(OPERANDS))) if thorough or op in ("**", "/", "%", ".") else sorted(rnd.sample(range(len(OPERANDS)), 14))
         out.append(Cond(PROP, "c13.kinds", make_kinds, {"op": op, "subset": subset}, {"i": int, "j": int}, kind="choice",
                         assumptions=["operands from a list of %d spellings (integers, fractions, reals incl. 1e400 and "
                                      "1e-400, 10**400, 2**2000, booleans, strings, sets, attributes, identifiers, a type)"
